@@ -377,10 +377,16 @@ CHECK_DEADLOCK FALSE
 """)
 
             def mech(f):
-                return f, tlc("TraceServer.tla", mcfg, workers=1, env={"TRACE": f, "JAVA_TOOL_OPTIONS": JAVA_OPTS_TRACE},
-                              timeout=600, xmx="3g", metatag=f"trsv-{prop}-{os.path.basename(f)}-{os.getpid()}")
+                try:
+                    return f, tlc("TraceServer.tla", mcfg, workers=1, env={"TRACE": f, "JAVA_TOOL_OPTIONS": JAVA_OPTS_TRACE},
+                                  timeout=300, xmx="3g", metatag=f"trsv-{prop}-{os.path.basename(f)}-{os.getpid()}")
+                except ToolError as e:
+                    return f, str(e)      # (mechanism level: a search that does not finish is drift)
             okn, drift = 0, []
             for f, r in parallel(mech, files, n=NCPU):
+                if isinstance(r, str):
+                    drift.append({"file": os.path.basename(f), "first_unexplained": "no explanation found in time: " + r[:120]})
+                    continue
                 v.cov["transitions"] += r.generated
                 v.cov["states"] += r.distinct
                 if r.ok:
